@@ -4,9 +4,9 @@ package core
 // streams means that deleting one operation does not shift the meaning of the
 // scheduling decisions (and vice versa) while shrinking.
 const (
-	SW       = iota // workload shape and operation arguments
-	SS              // scheduling decisions
-	SF              // fault / delivery decisions of the simulated I/O
+	SW = iota // workload shape and operation arguments
+	SS        // scheduling decisions
+	SF        // fault / delivery decisions of the simulated I/O
 	NStreams
 )
 
